@@ -71,6 +71,7 @@ def expression_corpus():
         "arithmetic": lambda x, y, z: (x + y) * 2 - z / 4 + (-x) + abs(y - z),
         "reflected": lambda x, y, z: (5 - x) + (2 * y) + (7 + z) + 12 / (abs(y) + 1) - (1 - (3 - x)),
         "identity-shortcuts": lambda x, y, z: (x + 0, 0 + x, x - 0, 0 - x, x * 1, 1 * x, x / 1, 0 * y, y * 0),
+        "float-constants-on-integer-values": lambda x, y, z: ((x * y) * 1.0, x + 0.0, 0.0 + y, (z * 2) / 1, 1.0 * z, x - 0.0, (x + y) * 1),
         "unit-divisor-and-exponent": lambda x, y, z: (x // 1, y / 1, z ** 1, (x + y) // 1, 1 * (z // 1), x // 1 + y // 1),
         "tuple-list-index": lambda x, y, z: ((x, y, z)[1], [x, y + 1][0], (x, (y, z))[1][1]),
         "slice": lambda x, y, z: (x, y, z, x + y)[1:3],
@@ -312,7 +313,7 @@ def obligations(tier, seed):
     o = dict(patches=M.math_patches(), total_timeout=300.0, vc_timeout=20.0)
     obs = []
     for name in expression_corpus():
-        integer = name in ("round-floordiv-mod",)
+        integer = name in ("round-floordiv-mod", "float-constants-on-integer-values")
         obs.append(Obligation(f"forest[{name}]", h_forest(name, integer), f"lifted expression '{name}' == plain Python on samples",
                               {"leaves": 3, "leaf values": "symbolic in [-4,4]"}, enc, ["leaf distributions with harness-supplied symbolic samples"], opts=o))
     import os
